@@ -24,6 +24,10 @@ pub enum Op {
     /// `doc.reference_mut(path)` and, through the handle, the container grows: an array gets `value`
     /// pushed, an object gets a new member holding it, anything else is replaced by it
     Grow { c: u8, path: String, value: Value },
+    /// `doc.reference_mut(path)` and, through the handle, the container shrinks: `how` 0 — an array
+    /// loses its last element, an object its first member; 1 — it is cleared; 2 — an array is cut to
+    /// half; a scalar is taken (left null)
+    Shrink { c: u8, path: String, how: u8 },
 }
 
 #[derive(Clone, Debug, Serialize, Deserialize)]
@@ -480,20 +484,51 @@ impl<'f> Exec<'f> {
         r.map(|(c, d)| self.viol(i, c, path, None, d))
     }
 
-    fn write(&mut self, i: usize, path: &str, value: &Value, q: Option<&str>, grow: bool) -> Option<Viol> {
+    /// `what`: 0 replace, 1 grow, 2.. shrink (2: last element / first member, 3: clear, 4: cut to half)
+    fn write(&mut self, i: usize, path: &str, value: &Value, q: Option<&str>, what: u8) -> Option<Viol> {
         // what the caller does with the handle
-        let apply = |node: &mut Value| {
-            if grow {
-                match node {
-                    Value::Array(a) => a.push(value.clone()),
-                    Value::Object(o) => {
-                        o.insert(format!("grown{}", i), value.clone());
-                    }
-                    other => *other = value.clone(),
+        let apply = |node: &mut Value| match what {
+            0 => *node = value.clone(),
+            1 => match node {
+                Value::Array(a) => a.push(value.clone()),
+                Value::Object(o) => {
+                    o.insert(format!("grown{}", i), value.clone());
                 }
-            } else {
-                *node = value.clone();
-            }
+                other => *other = value.clone(),
+            },
+            2 => match node {
+                Value::Array(a) => {
+                    a.pop();
+                }
+                Value::Object(o) => {
+                    if let Some(k) = o.keys().next().cloned() {
+                        o.remove(&k);
+                    }
+                }
+                other => {
+                    other.take();
+                }
+            },
+            3 => match node {
+                Value::Array(a) => a.clear(),
+                Value::Object(o) => o.clear(),
+                other => {
+                    other.take();
+                }
+            },
+            _ => match node {
+                Value::Array(a) => {
+                    let n = a.len() / 2;
+                    a.truncate(n);
+                }
+                Value::Object(o) => {
+                    let keep: Vec<String> = o.keys().take(o.len() / 2).cloned().collect();
+                    o.retain(|k, _| keep.contains(k));
+                }
+                other => {
+                    other.take();
+                }
+            },
         };
         let Some(loc) = npath::parse(path) else {
             // not a Normalized Path: the statement promises nothing; do not write through it
@@ -611,7 +646,7 @@ impl<'f> Exec<'f> {
     pub fn step(&mut self, i: usize, op: &Op) -> StepOut {
         if self.threads {
             let c = match op {
-                Op::Read { c, .. } | Op::Write { c, .. } | Op::Grow { c, .. } | Op::Capture { c, .. } | Op::UpdateAll { c, .. } => *c as usize,
+                Op::Read { c, .. } | Op::Write { c, .. } | Op::Grow { c, .. } | Op::Shrink { c, .. } | Op::Capture { c, .. } | Op::UpdateAll { c, .. } => *c as usize,
             };
             let me = SendPtr(self as *mut Exec<'f>);
             let opp = SendPtr(op as *const Op as *mut Op);
@@ -633,7 +668,7 @@ impl<'f> Exec<'f> {
             Ok(o) => o,
             Err(_) => match op {
                 Op::Read { path, .. } => StepOut { viol: Some(self.viol(i, "read-panic", path, None, "reference panicked".into())), reported: vec![] },
-                Op::Write { path, .. } | Op::Grow { path, .. } => StepOut { viol: Some(self.viol(i, "write-panic", path, None, "reference_mut (or the write through it) panicked".into())), reported: vec![] },
+                Op::Write { path, .. } | Op::Grow { path, .. } | Op::Shrink { path, .. } => StepOut { viol: Some(self.viol(i, "write-panic", path, None, "reference_mut (or the write through it) panicked".into())), reported: vec![] },
                 Op::Capture { .. } | Op::UpdateAll { .. } => {
                     self.stats.query_errors += 1;
                     // the document may be half-written after a panic inside UpdateAll: re-align the model
@@ -652,11 +687,15 @@ impl<'f> Exec<'f> {
             }
             Op::Write { path, value, .. } => {
                 self.stats.bump("write");
-                StepOut { viol: self.write(i, path, value, None, false), reported: vec![] }
+                StepOut { viol: self.write(i, path, value, None, 0), reported: vec![] }
             }
             Op::Grow { path, value, .. } => {
                 self.stats.bump("grow");
-                StepOut { viol: self.write(i, path, value, None, true), reported: vec![] }
+                StepOut { viol: self.write(i, path, value, None, 1), reported: vec![] }
+            }
+            Op::Shrink { path, how, .. } => {
+                self.stats.bump("shrink");
+                StepOut { viol: self.write(i, path, &Value::Null, None, 2 + *how), reported: vec![] }
             }
             Op::Capture { q, .. } => {
                 self.stats.bump("capture");
@@ -675,7 +714,7 @@ impl<'f> Exec<'f> {
                         continue; // echo already failed for this path (known finding); nothing to write through
                     }
                     let val = if values.is_empty() { Value::Null } else { values[k % values.len()].clone() };
-                    if let Some(v) = self.write(i, path, &val, Some(q), false) {
+                    if let Some(v) = self.write(i, path, &val, Some(q), 0) {
                         return StepOut { viol: Some(v), reported };
                     }
                 }
@@ -1305,6 +1344,8 @@ pub fn run(run_seed: u64, findings: &[Finding]) -> RunOut {
                 } else {
                     if rng.chance(1, 5) {
                         Op::Grow { c: c as u8, path: h.path.clone(), value: gen_value(&mut rng, &mut marker) }
+                    } else if rng.chance(1, 6) {
+                        Op::Shrink { c: c as u8, path: h.path.clone(), how: rng.below(3) as u8 }
                     } else {
                         Op::Write { c: c as u8, path: h.path.clone(), value: gen_value(&mut rng, &mut marker) }
                     }
@@ -1320,9 +1361,9 @@ pub fn run(run_seed: u64, findings: &[Finding]) -> RunOut {
             }
         };
         let i = ops.len();
-        let before = if matches!(op, Op::Write { .. } | Op::Grow { .. } | Op::UpdateAll { .. }) { Some(ex.model.clone()) } else { None };
+        let before = if matches!(op, Op::Write { .. } | Op::Grow { .. } | Op::Shrink { .. } | Op::UpdateAll { .. }) { Some(ex.model.clone()) } else { None };
         let out = ex.step(i, &op);
-        if let Op::Write { path, .. } | Op::Grow { path, .. } = &op {
+        if let Op::Write { path, .. } | Op::Grow { path, .. } | Op::Shrink { path, .. } = &op {
             if let Some(l) = npath::parse(path) {
                 if before.as_ref() != Some(&ex.model) {
                     writes.push((l, i));
